@@ -8,12 +8,13 @@ from .fvm_check import run_check
 
 def sig_of(r):
     return {"kind": r["kind"], "model": r.get("model", "table"), "flux": str(r.get("flux", "")), "recon": str(r.get("recon", "")),
-            "bc": "%s/%s" % (r.get("bcl", r.get("bc", "")), r.get("bcr", "")), "integrator": r.get("integrator", "")}
+            "bc": "%s/%s" % (r.get("bcl", r.get("bc", "")), r.get("bcr", "")), "integrator": r.get("integrator", ""),
+            "feature": r.get("feature", "")}
 
 
 def run(tier):
     rnd = random.Random(core.seed())
-    g1 = K1.exact_rhs_cases(rnd, tier) + K1.table_tok_cases(rnd, tier) + RC.uniform_cases(rnd, tier)
+    g1 = K1.exact_rhs_cases(rnd, tier) + K1.table_tok_cases(rnd, tier) + RC.uniform_cases(rnd, tier) + [RC.lowmach_witness()]
     g2 = K2.exact2d_cases(rnd, tier) + RC.uniform2d_cases(rnd, tier)
     return run_check(
         "C03", tier,
